@@ -299,7 +299,12 @@ class ModelBase:
             if all(c is not None for c in cols) and len({len(c) for c in cols}) == 1:
                 elts = [interp.call_value(a0, list(row), {}, frame, st, node) for row in zip(*cols)]
                 return AV(ty='generator', elts=elts, deps=d, fresh=True)
-            items = [self.iter_item(interp, st, x, node, None) for x in args[1:]]
+            if len(args) > 2:
+                # several iterables advance in step, like zip
+                zi = self.iter_item(interp, st, AV(ty='zip', inners=list(args[1:])), node, None)
+                items = list(zi.elts)
+            else:
+                items = [self.iter_item(interp, st, x, node, None) for x in args[1:]]
             el = interp.call_value(a0, items, {}, frame, st, node)
             return AV(ty='generator', elem=el, deps=d | ((el.deps or frozenset()) if el is not None else frozenset()), fresh=True,
                       maybe_empty=any(self.maybe_empty_iter(x) for x in args[1:]) or None)
@@ -321,6 +326,8 @@ class ModelBase:
                 return AV(ty=name, elts=[], fresh=True)
             if a0.elts is not None:
                 return AV(ty=name, elts=list(a0.elts), deps=d, fresh=True, elem=a0.elem)
+            if a0.ty == 'dict' and a0.kw and not a0.open_kw and a0.keyelem is None:
+                return AV(ty=name, elts=[const(k) for k in a0.kw], deps=d, fresh=True)  # the keys, in insertion order
             el = self.iter_item(interp, st, a0, None, None)
             out = AV(ty=name, elem=el, deps=d, fresh=True, maybe_empty=a0.maybe_empty, of=a0 if a0.ty in ('ndarray', 'set', 'dict') else None)
             if a0.voxel and a0.selected_by is not None:
@@ -335,6 +342,10 @@ class ModelBase:
         if name == 'dict':
             if a0 is not None and a0.ty == 'dict':
                 return a0.w(fresh=True, store=None, deps=d)
+            if a0 is not None and a0.ty == 'zip' and len(a0.inners) == 2 and a0.inners[0].elts is not None and a0.inners[1].elts is not None \
+                    and len(a0.inners[0].elts) == len(a0.inners[1].elts) and all(has_const(k) and isinstance(cval(k), str) for k in a0.inners[0].elts):
+                # dict(zip(names, values)) with known names: one entry per name
+                return AV(ty='dict', kw={cval(k): v for k, v in zip(a0.inners[0].elts, a0.inners[1].elts)}, deps=d, fresh=True)
             if a0 is not None and a0.ty == 'zip':
                 ins = a0.inners
                 return AV(ty='dict', keyelem=self.iter_item(interp, st, ins[0], None, None) if ins else None,
@@ -412,7 +423,12 @@ class ModelBase:
                 fi = fi.parent
             return AV(ty='super', cls=fi.cls.qualname if fi is not None else None, selfav=frame.self_av)
         if name == 'slice':
-            return AV(ty='slice')
+            # slice(stop) / slice(start, stop[, step])
+            if len(args) == 1:
+                return AV(ty='slice', lo=None, hi=args[0], step=None, deps=d)
+            nn = lambda v: None if (v is not None and v.ty == 'None') else v
+            return AV(ty='slice', lo=nn(args[0]) if args else None, hi=nn(args[1]) if len(args) > 1 else None,
+                      step=nn(args[2]) if len(args) > 2 else None, deps=d)
         if name in ('any', 'all'):
             return AV(ty='bool', deps=d)
         if name == 'round':
@@ -545,6 +561,9 @@ class ModelBase:
                 if el is not None and x.ty == 'ndarray' and x.axes and x.axes[0] == 'frame' and x.shifted is None:
                     # zip over the frame axis of several arrays: the k-th items belong to the same frame
                     el = el.w(frame_idx=f'zip@{getattr(node, "lineno", 0)}')
+                if el is not None and x.sx is not None:
+                    # the k-th item of every zipped sequence: which sequence, and which zip keeps them in step
+                    el = el.w(zip_src=x.sx, zip_key=f'zip@{getattr(node, "lineno", None) or id(it)}')
                 elts.append(el)
             return AV(ty='tuple', elts=elts)
         if ty == 'dict':
